@@ -165,6 +165,45 @@ class Pipeline(Instance):
             e.prove(cs == want, "pipe:roundtrip", f"sample {sname.decode()}: extracted {cs} != pushed {want}")
         e.witness("extracted")
 
+    def independent_decode(self, e):
+        """C02: the archive as a reader built only from the format rules sees it (harness/agcread.py) must give back every sample"""
+        from harness import agcread
+        tab_i = e.h.get("zstd_table", []); tab_h = e.h.get("zstd_hash_table", {})
+
+        def zd(frame):
+            frame = list(frame)
+            if not frame:
+                raise agcread.FormatError("zstd: empty frame")
+            m = frame[0]
+            if m == 0x28:
+                return frame[1:]
+            if m == 0x29 and len(frame) >= 3:
+                n = frame[1] + 256 * frame[2]
+                return frame[3:3 + n]
+            if m == 0x2A and len(frame) == 2 and frame[1] < len(tab_i):
+                return [e.eval_concrete(x) for x in tab_i[frame[1]]]
+            if m == 0x2B and len(frame) == 4 and bytes(frame[1:4]) in tab_h:
+                return list(tab_h[bytes(frame[1:4])])
+            raise agcread.FormatError("zstd: not a frame of the codec")
+        data = [e.eval_concrete(x) for x in e.fs.files[PATH].data]
+        try:
+            a = agcread.Agc(data, zd)
+            got = a.all_samples()
+        except agcread.FormatError as ex:
+            e.prove(False, "fmt:independent_decoder", f"a reader built from the AGC v3 format rules rejects the archive: {ex}")
+        except (IndexError, ValueError, KeyError) as ex:
+            e.prove(False, "fmt:independent_decoder", f"a reader built from the AGC v3 format rules cannot parse the archive: {ex!r}")
+        ev = e.eval_concrete
+        src = self.sym_data(e) if (self.sym or self.edits) else self.samples
+        want = []
+        for sn, cs in src:
+            if not want or want[-1][0] != sn:
+                want.append((sn, []))
+            want[-1][1].extend((cn, [ev(x) if isinstance(x, Int) else x for x in d]) for cn, d in cs)
+        e.prove(got == want, "fmt:independent_decoder", f"the independent reader decodes {got}, the input was {want}")
+        e.prove((a.k, a.min_match, a.pack_card) == (self.k, self.cfg.get("min_match_len", Int(64, 0, 4)).v, 50), "fmt:params", f"params stream says k={a.k}, min_match={a.min_match}, pack={a.pack_card}")
+        e.witness("independent_decoder_agrees")
+
     def file_bytes(self, e):
         fd = e.fs.files.get(PATH)
         return [x.v for x in fd.data] if fd is not None else None
@@ -205,6 +244,8 @@ class Pipeline(Instance):
             e.inputs["samples"] = [[sn.decode(), [[cn.decode(), [e.eval_concrete(x) for x in d]] for cn, d in cs]] for sn, cs in self.sym_data(e)]
         if self.view in ("roundtrip", "all"):
             self.read_back(e)
+        if self.view == "format":
+            self.independent_decode(e)
         if self.view == "term":
             # every queued contig was compressed: the archive lists every pushed sample and contig (read back through the real reader)
             self.read_back(e)
@@ -299,3 +340,4 @@ _reg(Pipeline("sym1_api_t1", 1, TWO, splitters=SPL, preempt=0, driver="api", sym
 _reg(Pipeline("sym2_api_t1", 1, TWO, splitters=SPL, preempt=0, driver="api", sym=[(1, 0, 5), (1, 0, 12)]))
 _reg(Pipeline("edit_subst_t1", 1, TWO, splitters=SPL, preempt=0, driver="api", edits=[("subst", 1, 0)]))
 _reg(Pipeline("edit_indel_rc_t1", 1, TWO, splitters=SPL, preempt=0, driver="api", edits=[("rc", 1, 0), ("del", 1, 0), ("ins", 1, 0)]))
+_reg(Pipeline("fmt_api_t1", 1, THREE, splitters=SPL, preempt=0, driver="api", view="format"))
